@@ -1083,6 +1083,9 @@ func runC18(r *Rng, tier string, n int) {
 	oracleSizes(r, keys, tier)
 	// (1c) many goroutines signing and verifying at once
 	oracleConcurrent(r, keys, tier)
+	// (1d) KEY objects that change between calls; the window at its exact bounds
+	oracleKeyChange(r, keys)
+	oracleWindowExact(r, keys)
 	// (2) validity window, malformed input
 	wm := new(dns.Msg)
 	wm.SetQuestion("example.org.", dns.TypeSOA)
